@@ -10,6 +10,7 @@ import (
 type c13state struct {
 	before     string // zones + told views before the reconfigure
 	beforeTold map[string]told
+	allocated  map[string]bool // containers holding an allocation before the reconfigure
 }
 
 // sub returns a reporter that files violations of the invariants C01-C04 under
@@ -197,7 +198,10 @@ func (o *oracles) toldAndZones() (string, map[string]told) {
 func (o *oracles) beforeRequest(op *Op) {
 	if o.w.prop == "C13" && op.Kind == "reconfigure" {
 		s, t := o.toldAndZones()
-		o.c13 = &c13state{before: s, beforeTold: t}
+		o.c13 = &c13state{before: s, beforeTold: t, allocated: map[string]bool{}}
+		for _, y := range o.w.rt.active() {
+			o.c13.allocated[y.spec.ID] = o.allocated(y.spec.ID)
+		}
 	}
 }
 
@@ -241,6 +245,11 @@ func (o *oracles) checkC13(rep reporter, r *reply) {
 			res.Check("accepted-keeps-allocations")
 			if !o.allocated(y.spec.ID) {
 				ctx := ""
+				if !o.c13.allocated[y.spec.ID] {
+					// F8/F25: it had lost its allocation in an earlier failed
+					// re-allocation; the update does not bring it back
+					ctx = " already-unallocated-before-the-update"
+				}
 				for _, z := range w.rt.active() {
 					if z.reqUnsure {
 						// F6/F7: another container's failed UpdateContainer left its
